@@ -5,6 +5,9 @@ import json, subprocess, sys
 
 CLAIMED = {
  # id: (technique, level text, level note, design ref)
+ "C13": ("explicit-state search over all new/fetch/write/unpin/flush/deallocate sequences on the real BufferPoolManager (pool sizes 1-3, in-memory and file disk manager, 2 users), merged on the pool's private state",
+         "Every operation sequence up to the depth bound is executed on the real buffer pool; after every call the page table, frames, pin counts, resident bytes and on-disk bytes (read back through the disk manager) are compared with a map model page->latest bytes: fetch returns the latest bytes, pinned pages keep their frame, frames are never shared, new ids are never live ids.",
+         "API contract restrictions listed in the evidence file (creator initialises and unpins dirty; deallocation only in the two call patterns the code base uses); single-threaded; depth bound", "§4 C13"),
  "C15": ("explicit-state search over all operation sequences on the real TablePage, merged on raw page bytes, against a slot map model",
          "Every sequence of insert/update(grow, shrink, rollback flavour)/mark-delete/apply-delete/rollback-delete up to the depth bound, with row sizes from 1 byte to exactly-fills-the-page and one-too-big, is executed on the real slotted page; after every operation the raw 4096 bytes are compared with a slot->bytes model (row bytes, disjointness, bounds, free-space pointer, slot array, read path).",
          "recovery-phase transaction (no lock manager), logging off; operations restricted to the call patterns TableHeap/Abort/recovery use; depth and slot-count bounds in the evidence file", "§4 C15"),
